@@ -20,8 +20,9 @@ Definition wdiag_eqb (x y : wdiag) : bool :=
   | _, _ => false
   end.
 
+(* Server.externalDeclarations: the workspace's declarations plus those of the files the document includes *)
 Definition tie_ok (c : case) : bool :=
-  list_eqb wdiag_eqb (analyze_warnings (cur c) (ws_acc c) (ws_com c) (with_switches (sw_acc c) (sw_com c))) (observed c).
+  list_eqb wdiag_eqb (analyze_warnings (cur c) (tree_acc c ++ ws_acc c) (tree_com c ++ ws_com c) (with_switches (sw_acc c) (sw_com c))) (observed c).
 
 (* the rule over the full scope: current file + its include tree + its workspace *)
 Definition oracle_ok (c : case) : bool :=
@@ -29,8 +30,7 @@ Definition oracle_ok (c : case) : bool :=
     (analyze_warnings (cur c) (tree_acc c ++ ws_acc c) (tree_com c ++ ws_com c) (with_switches (sw_acc c) (sw_com c)))
     (observed c).
 
-(* class 1: without a workspace root the include tree's declarations are not consulted *)
-Definition known (c : case) : N :=
-  if negb (has_root c) && negb (match tree_acc c, tree_com c with [], [] => true | _, _ => false end) then 1 else 0.
+(* no recorded finding is left (the scope defect of the pinned tree was repaired) *)
+Definition known (c : case) : N := 0.
 
 Definition judge_all := judge_with tie_ok oracle_ok known.
